@@ -226,40 +226,44 @@ def x86GpSaved (f : Frame) : Nat :=
 /-- register that carries the stack-argument base (`sa_reg` variable of `emit_prolog`) -/
 def x86SaReg (f : Frame) : Nat := if f.saRegId ≠ 0xFF ∧ f.saRegId ≠ 4 then f.saRegId else 4
 
+/-! pieces of `emit_prolog`, in emission order -/
+def x86Ibp (f : Frame) : List Instr :=
+  if f.hasIBP then [Instr.nop (if f.arch = .x86 then "endbr32" else "endbr64")] else []
+def x86FpPush (f : Frame) : List Instr := if f.hasFP then [Instr.push 5, Instr.mov 5 4] else []
+def x86Pushes (f : Frame) : List Instr := (bitsAsc (x86GpSaved f) 32).map Instr.push
+def x86SaMov (f : Frame) : List Instr :=
+  if f.saRegId ≠ 0xFF ∧ f.saRegId ≠ 4 then
+    (if f.hasFP then (if f.saRegId ≠ 5 then [Instr.mov f.saRegId 5] else []) else [Instr.mov f.saRegId 4])
+  else []
+def x86And (f : Frame) : List Instr := if f.hasDA then [Instr.andImm 4 (-(toI32 f.finalAlign))] else []
+def x86Sub (f : Frame) : List Instr := if f.stackAdj ≠ 0 then [Instr.sub 4 (f.stackAdj : Nat)] else []
+def x86DaStore (f : Frame) : List Instr :=
+  if f.hasDA ∧ f.daOff ≠ invalidOff then [Instr.stGp 4 (toI32 f.daOff) (x86SaReg f)] else []
+def x86XStores (f : Frame) : List Instr := (xSlots f).map fun (mn, id, off) => Instr.stX mn 4 (toI32 off) id
+
 def x86Prolog (f : Frame) : List Instr :=
-  let sp := 4
-  let bp := 5
-  (if f.hasIBP then [Instr.nop (if f.arch = .x86 then "endbr32" else "endbr64")] else [])
-  ++ (if f.hasFP then [Instr.push bp, Instr.mov bp sp] else [])
-  ++ (bitsAsc (x86GpSaved f) 32).map Instr.push
-  ++ (if f.saRegId ≠ 0xFF ∧ f.saRegId ≠ sp then
-        (if f.hasFP then (if f.saRegId ≠ bp then [Instr.mov f.saRegId bp] else [])
-         else [Instr.mov f.saRegId sp])
-      else [])
-  ++ (if f.hasDA then [Instr.andImm sp (-(toI32 f.finalAlign))] else [])
-  ++ (if f.stackAdj ≠ 0 then [Instr.sub sp (f.stackAdj : Nat)] else [])
-  ++ (if f.hasDA ∧ f.daOff ≠ invalidOff then [Instr.stGp sp (toI32 f.daOff) (x86SaReg f)] else [])
-  ++ (xSlots f).map fun (mn, id, off) => Instr.stX mn sp (toI32 off) id
+  x86Ibp f ++ (x86FpPush f ++ (x86Pushes f ++ (x86SaMov f ++ (x86And f ++ (x86Sub f ++ (x86DaStore f ++ x86XStores f))))))
 
 /-- the `pop gp` loop: ids 15 … 0 -/
 def x86PopOrder (mask : Nat) : List Nat := ((List.range 16).reverse).filter fun i => mask.testBit i
 
-def x86Epilog (f : Frame) : List Instr :=
-  let sp := 4
-  let bp := 5
-  let W := f.arch.W
-  ((xSlots f).map fun (mn, id, off) => Instr.ldX mn id sp (toI32 off))
-  ++ (if f.mmxCleanup then [Instr.nop "emms"] else [])
+/-! pieces of `emit_epilog`, in emission order -/
+def x86XLoads (f : Frame) : List Instr := (xSlots f).map fun (mn, id, off) => Instr.ldX mn id 4 (toI32 off)
+def x86Cleanup (f : Frame) : List Instr :=
+  (if f.mmxCleanup then [Instr.nop "emms"] else [])
   ++ (if f.avxCleanup || (f.avxAutoCleanup && f.dirty 1 != 0) then [Instr.nop "vzeroupper"] else [])
-  ++ (if f.hasFP then
-        let count : Int := toI32 (u32 (f.ppSize + 2 ^ 32 - W))
-        (if count = 0 then [Instr.mov sp bp] else [Instr.lea sp bp (-count)])
-      else if f.hasDA ∧ f.daOff ≠ invalidOff then [Instr.ldGp sp sp (toI32 f.daOff)]
-      else if f.stackAdj ≠ 0 then [Instr.add sp (toI32 f.stackAdj)]
-      else [])
-  ++ (x86PopOrder (x86GpSaved f)).map Instr.pop
-  ++ (if f.hasFP then [Instr.pop bp] else [])
-  ++ [Instr.ret f.calleeCleanup]
+def x86RestoreSp (f : Frame) : List Instr :=
+  if f.hasFP then
+    let count : Int := toI32 (u32 (f.ppSize + 2 ^ 32 - f.arch.W))
+    (if count = 0 then [Instr.mov 4 5] else [Instr.lea 4 5 (-count)])
+  else if f.hasDA ∧ f.daOff ≠ invalidOff then [Instr.ldGp 4 4 (toI32 f.daOff)]
+  else if f.stackAdj ≠ 0 then [Instr.add 4 (toI32 f.stackAdj)]
+  else []
+def x86Pops (f : Frame) : List Instr := (x86PopOrder (x86GpSaved f)).map Instr.pop
+def x86FpPop (f : Frame) : List Instr := if f.hasFP then [Instr.pop 5] else []
+
+def x86Epilog (f : Frame) : List Instr :=
+  x86XLoads f ++ (x86Cleanup f ++ (x86RestoreSp f ++ (x86Pops f ++ (x86FpPop f ++ [Instr.ret f.calleeCleanup]))))
 
 /-! ### AArch64: `PrologEpilogInfo::init`, `emit_prolog`, `emit_epilog` -/
 
